@@ -1,6 +1,8 @@
 package poa
 
 import (
+	stdmath "math"
+
 	sdkerrors "github.com/cosmos/cosmos-sdk/types/errors"
 	"github.com/cosmos/cosmos-sdk/x/staking/types"
 
@@ -118,6 +120,11 @@ func (msg MsgSetPower) Validate(ac address.Codec) error {
 
 	if msg.Power < 1_000_000 {
 		return ErrPowerBelowMinimum
+	}
+
+	// the power is used as a signed 64-bit token amount
+	if msg.Power > stdmath.MaxInt64 {
+		return errorsmod.Wrapf(sdkerrors.ErrInvalidRequest, "power %d does not fit a signed 64-bit token amount", msg.Power)
 	}
 
 	return nil
